@@ -4,6 +4,7 @@ package main
 
 import (
 	"fmt"
+	"sort"
 	"net/textproto"
 	"os"
 	"go/constant"
@@ -776,8 +777,24 @@ func (e *Env) evalIndex(n SIndex) Val {
 	x := e.x
 	if id, ok := n.X.(SIdent); ok && id.Name == "calls" {
 		iv, ok := n.I.(SInt)
+		if c, isCall := n.I.(SCall); isCall && !ok {
+			// calls[lastOf("Name")]: the last logged call of that method or function
+			if f, isId := c.Fun.(SIdent); isId && f.Name == "lastOf" && len(c.Args) == 1 {
+				if lit, isLit := c.Args[0].(SStr); isLit {
+					iv, ok = SInt{V: int64(len(e.events))}, true
+					for i, ev := range e.events {
+						if ev.named(lit.V) {
+							iv.V = int64(i)
+						}
+					}
+				}
+			}
+		}
 		if !ok {
-			return e.fail("calls index must be a literal")
+			return e.fail("calls index must be a literal or lastOf(\"Name\")")
+		}
+		if e.eventsUnknown {
+			return e.fail("calls[...] where the call log is not available")
 		}
 		if int(iv.V) >= len(e.events) {
 			// no such event on this path: any claim about it is vacuous only
@@ -1148,6 +1165,43 @@ func (e *Env) evalCall(n SCall) Val {
 			p := e.eval(n.Args[1])
 			x.d.DeclareFun("basicAuth", "(declare-fun basicAuth (String String) String)")
 			return Val{T: mk("String", "str.++", StrLit("Basic "), mk("String", "basicAuth", u.T, p.T)), Typ: types.Typ[types.String]}
+		case "closed":
+			// closed(v): Close was called on the reader/closer v along this path
+			v := e.eval(n.Args[0])
+			if v.T.Sort != "Iface" {
+				return e.fail("closed() needs an interface value")
+			}
+			var keys []string
+			for k := range e.st.ghost {
+				if strings.HasPrefix(k, "closedv:") {
+					keys = append(keys, k)
+				}
+			}
+			sort.Strings(keys)
+			r := False
+			for _, k := range keys {
+				r = Or(r, Eq(v.T, e.st.ghost[k]))
+			}
+			return Val{T: r, Typ: types.Typ[types.Bool]}
+		case "ncallsAfter":
+			// ncallsAfter("A", "B"): how many calls of B were logged after the last call of A (0 if A was never called)
+			la, ok1 := n.Args[0].(SStr)
+			lb, ok2 := n.Args[1].(SStr)
+			if !ok1 || !ok2 {
+				return e.fail("ncallsAfter needs two literal names")
+			}
+			if e.eventsUnknown {
+				return Val{T: x.d.Fresh("ncalls", "Int"), Typ: types.Typ[types.Int]}
+			}
+			k, seen := 0, false
+			for _, ev := range e.events {
+				if ev.named(la.V) {
+					k, seen = 0, true
+				} else if seen && ev.named(lb.V) {
+					k++
+				}
+			}
+			return Val{T: IntLit(int64(k)), Typ: types.Typ[types.Int]}
 		case "ncallsOf":
 			// ncallsOf("Method"): how many logged calls of that method (or function) name
 			lit, ok := n.Args[0].(SStr)
@@ -1159,7 +1213,7 @@ func (e *Env) evalCall(n SCall) Val {
 			}
 			k := 0
 			for _, ev := range e.events {
-				if ev.Method == lit.V || (ev.Static != nil && ev.Static.Name() == lit.V) {
+				if ev.named(lit.V) {
 					k++
 				}
 			}
